@@ -97,7 +97,7 @@ func genC16(r *PRNG, tier string) *Scenario {
 				if d.Proxy.Kind == "socks5" {
 					d.Proxy.SocksCode = byte(r.Pick([]int{1, 2, 3, 4, 5, 6, 7, 8}))
 				} else {
-					d.Proxy.Reply = r.PickS([]string{"403", "407", "407-noreason", "502-long", "garbage", "close"})
+					d.Proxy.Reply = r.PickS([]string{"403", "407", "407-noreason", "502-long", "garbage", "close", "202", "204"})
 				}
 			} else {
 				d.Backend.Kind = "byz"
@@ -327,6 +327,9 @@ func oracleC16Server(run *Run) {
 func genC18(r *PRNG, tier string) *Scenario {
 	scn := &Scenario{Prop: "C18", Class: "topology", Seed: r.Uint64() >> 1, Sched: genSched(r), HS: &HSScn{}}
 	scn.Sched.IdleHorizon = 5000
+	if r.Chance(1, 5) {
+		return genC18Shared(r, scn)
+	}
 	d := HSDial{RBuf: genBuf(r), WBuf: genBuf(r), Comp: r.Bool()}
 	kind := r.PickS([]string{"direct", "http", "http", "https", "https", "socks5"})
 	wss := r.Bool()
@@ -341,7 +344,7 @@ func genC18(r *PRNG, tier string) *Scenario {
 				d.Proxy.SocksCode = byte(r.Pick([]int{1, 2, 5}))
 			}
 		} else {
-			d.Proxy.Reply = r.PickS([]string{"200", "200", "200", "403", "407", "407-noreason", "garbage"})
+			d.Proxy.Reply = r.PickS([]string{"200", "200", "200", "403", "407", "407-noreason", "garbage", "201", "204", "299"})
 		}
 	}
 	d.IdleMs = 1
@@ -370,15 +373,24 @@ func oracleC18(run *Run) {
 	if run.HS == nil || len(run.HS.Dials) == 0 {
 		return
 	}
-	res := run.HS.Dials[0]
-	d := &run.Scn.HS.Dials[0]
+	for i := range run.HS.Dials {
+		oracleC18Dial(run, i)
+	}
+}
+
+func oracleC18Dial(run *Run, di int) {
+	res := run.HS.Dials[di]
+	d := &run.Scn.HS.Dials[di]
 	path := pathName(d)
+	if run.Scn.HS.SharedDialer {
+		path = fmt.Sprintf("shared-dialer/dial%d/", di) + path
+	}
 	if res.Panic != "" {
 		run.fail("C18", "panic", panicSite(res.Panic), "Dial panicked: %s", clipN(res.Panic, 900))
 		return
 	}
 	if !res.Returned {
-		if run.Reason != "steps" {
+		if run.Reason != "steps" && (di == 0 || run.HS.Dials[di-1].Returned) {
 			run.fail("C18", "dial-hung", path, "%s: Dial did not return", path)
 		}
 		return
@@ -453,6 +465,10 @@ func oracleC18(run *Run) {
 	}
 	bl := &res.Backend
 	certOK := !wss || d.Backend.Cert == "valid"
+	certKind := d.Backend.Cert
+	if strings.HasPrefix(certKind, "as:") {
+		certKind = "valid-for-another-host"
+	}
 	if wss {
 		// no HTTP byte outside TLS; SNI is the URL's host name
 		if len(bl.RawFirst) > 0 && bl.RawFirst[0] != 0x16 {
@@ -470,10 +486,10 @@ func oracleC18(run *Run) {
 		run.fail("C18", "dial-failed", path, "%s: every hop was willing and the certificate valid, but Dial failed: %s", path, res.ErrText)
 	}
 	if !certOK && res.Conn != nil {
-		run.fail("C18", "bad-certificate-accepted", path+"/"+d.Backend.Cert, "%s: the backend presented a certificate that is %s, yet Dial returned a connection", path, d.Backend.Cert)
+		run.fail("C18", "bad-certificate-accepted", pathKind(d)+"/"+certKind, "%s: the backend presented a certificate that is %s, yet Dial returned a connection", path, certKind)
 	}
 	if !certOK && bl.Upgraded {
-		run.fail("C18", "handshake-sent-to-unverified-peer", path+"/"+d.Backend.Cert, "%s: the WebSocket handshake reached a backend whose certificate is %s", path, d.Backend.Cert)
+		run.fail("C18", "handshake-sent-to-unverified-peer", pathKind(d)+"/"+certKind, "%s: the WebSocket handshake reached a backend whose certificate is %s", path, certKind)
 	}
 	if res.Conn != nil && res.PostDone && res.PostErr != "" {
 		run.fail("C18", "tunnel-broken", path, "%s: message exchange through the established path failed: %s", path, res.PostErr)
@@ -535,5 +551,31 @@ func sweepC16(r *PRNG, k, S int) *Scenario {
 			d.HsTimeoutMs = 5000
 		}
 	}
+	return scn
+}
+
+// genC18Shared: two wss dials with ONE Dialer value and ONE tls.Config. The
+// second backend presents a trusted certificate that is valid for the first
+// dial's host, not for its own: verification must be for the URL's host on
+// every dial, whatever an earlier dial left behind.
+func genC18Shared(r *PRNG, scn *Scenario) *Scenario {
+	scn.Class = "shared-dialer"
+	scn.HS.SharedDialer = true
+	hooks := r.PickS([]string{"c", "d", "dc"})
+	kind1 := r.PickS([]string{"http", "https", "socks5", "direct"})
+	kind2 := r.PickS([]string{"direct", "direct", "http", "https"})
+	var d1, d2 HSDial
+	genPath(r, &d1, kind1, true)
+	genPath(r, &d2, kind2, true)
+	d1.URL, d2.URL = "wss://first.test/", "wss://second.test/"
+	d1.Hooks, d2.Hooks = hooks, hooks
+	d1.Backend = Backend{Kind: "upgrader", TLS: true, Cert: "valid"}
+	d2.Backend = Backend{Kind: "upgrader", TLS: true, Cert: "as:first.test"}
+	if r.Chance(1, 4) {
+		d2.Backend.Cert = "valid" // control: the second dial is fine
+	}
+	d1.IdleMs, d2.IdleMs = 1, 1
+	scn.HS.Dials = []HSDial{d1, d2}
+	scn.Net = NetCfg{DefCap: 1 << 20}
 	return scn
 }
